@@ -120,8 +120,16 @@ class _Connector:
                     self.last_error or IOError("connection failed")
                 )
             return
-        stream, future = self.connect(af, addr)
-        self.streams.add(stream)
+        try:
+            stream, future = self.connect(af, addr)
+        except Exception as e:
+            # The attempt could not even be started (e.g. bind() failed):
+            # treat it as a failed attempt instead of losing the exception
+            # in whatever callback we were called from.
+            stream, future = None, Future()
+            future.set_exception(e)
+        if stream is not None:
+            self.streams.add(stream)
         future_add_done_callback(
             future, functools.partial(self.on_connect_done, addrs, af, addr)
         )
@@ -319,8 +327,9 @@ class TCPClient:
         try:
             stream = IOStream(socket_obj, max_buffer_size=max_buffer_size)
         except OSError as e:
+            socket_obj.close()
             fu: Future[IOStream] = Future()
             fu.set_exception(e)
-            return stream, fu
+            return None, fu  # type: ignore
         else:
             return stream, stream.connect(addr)
